@@ -104,6 +104,18 @@ class Session:
         mod = g.sync if self.mode == "sync" else g.asyn
         kw = dict(addr="127.0.0.1", port=agent.port, timeout=sc.get("timeout", 0.3))
         kw.update(sc.get("session_kw", {}))
+        self.policed = None
+        if sc.get("policer") == "counting":
+            # the library's own RPSPolicer at a rate that never sleeps noticeably; every consultation is counted
+            import gufo.snmp.policer as pol
+            counter = {"n": 0}
+
+            class CountingPolicer(pol.RPSPolicer):
+                def get_timeout(self, *a, **kw):
+                    counter["n"] += 1
+                    return super().get_timeout(*a, **kw)
+            kw["policer"] = CountingPolicer(1e6)
+            self.policed = counter
         v = sc["version"]
         if v == "v1":
             kw.update(community=sc.get("community", "public"), version=g.SnmpVersion.v1)
@@ -306,7 +318,7 @@ def run_scenario(g, sc, model=None, rng=None):
     """Run one scenario; returns the record: emitted datagrams and outcome per step."""
     import random
     rng = rng or random.Random(sc.get("seed", 1))
-    state = {"step": None, "k": 0, "reqs": [], "exchanges": []}
+    state = {"step": None, "k": 0, "reqs": [], "exchanges": [], "sess": None}
     keys_cache = {}
 
     def keys_for(engine_hex):
@@ -318,6 +330,8 @@ def run_scenario(g, sc, model=None, rng=None):
 
     def handler(n, data, addr):
         st = state["step"]
+        arrival = {"t": time.monotonic(), "policed": (state["sess"].policed or {}).get("n") if state["sess"] is not None else None}
+        state["arrivals"] = state.get("arrivals", []) + [arrival]
         keys = keys_for(sc["v3"]["agent_engine_id"]) if sc["version"] == "v3" else None
         req = parse_request(data, keys, model)
         state["reqs"].append(req)
@@ -328,7 +342,7 @@ def run_scenario(g, sc, model=None, rng=None):
         if st.get("mib") is not None:
             sp = mib_reply(st["mib"], req, sc)
             r = [(0, build_reply(sp, req, sc, keys, model, rng))] if sp is not None else []
-            state["exchanges"].append({"request": data.hex(), "replies": [d.hex() for _, d in r]})
+            state["exchanges"].append({"request": data.hex(), "replies": [d.hex() for _, d in r], "reply_spec": sp})
             return r
         specs = st.get("replies", [])
         if k < len(specs):
@@ -347,12 +361,14 @@ def run_scenario(g, sc, model=None, rng=None):
     rec = {"steps": []}
     try:
         sess = Session(g, sc, agent, model)
+        state["sess"] = sess
         rec["create_error"] = sess.create_error
         for st in sc["steps"]:
             state["step"] = st
             state["k"] = 0
             state["reqs"] = []
             state["exchanges"] = []
+            state["arrivals"] = []
             agent.take()
             t0 = time.time()
             r = sess.op(st["op"], st.get("args", []), st.get("cap", 200))
@@ -362,6 +378,7 @@ def run_scenario(g, sc, model=None, rng=None):
             r["emitted"] = [d.hex() for d in agent.take()]
             r["requests"] = [summarise(q) for q in state["reqs"]]
             r["exchanges"] = list(state["exchanges"])
+            r["arrivals"] = list(state["arrivals"])
             rec["steps"].append(r)
         state["step"] = None
         sess.close()
